@@ -199,6 +199,7 @@ where
         B: DataRef,
     {
         assert_eq!(res.rank(), a.rank());
+        let a: &GLWE<&[u8]> = &glwe_effective_view(a, a_effective_k);
         assert!(
             scratch.available() >= self.glwe_mul_plain_tmp_bytes(res, a, b),
             "scratch.available(): {} < GLWEMulPlain::glwe_mul_plain_tmp_bytes: {}",
@@ -208,7 +209,6 @@ where
 
         let ab_base2k: usize = a.base2k().as_usize();
         assert_eq!(b.base2k().as_usize(), ab_base2k);
-        assert_eq!(a_effective_k.div_ceil(ab_base2k), a.size());
         assert_eq!(b_effective_k.div_ceil(ab_base2k), b.size());
         let res_base2k: usize = res.base2k().as_usize();
 
@@ -272,18 +272,20 @@ where
 
         let ab_base2k: usize = a.base2k().as_usize();
         assert_eq!(res.base2k().as_usize(), ab_base2k);
-        assert_eq!(res_effective_k.div_ceil(ab_base2k), res.size());
         assert_eq!(a_effective_k.div_ceil(ab_base2k), a.size());
 
         let cols: usize = res.rank().as_usize() + 1;
 
-        let (mut res_prep, scratch_1) = scratch.take_cnv_pvec_left(self, cols, res.size());
+        // Only the limbs holding the res_effective_k bits of the input are consumed; the product is written over all of res.
+        let res_in: GLWE<&[u8]> = glwe_effective_view(res, res_effective_k);
+
+        let (mut res_prep, scratch_1) = scratch.take_cnv_pvec_left(self, cols, res_in.size());
         let (mut a_prep, scratch_2) = scratch_1.take_cnv_pvec_right(self, 1, a.size());
 
         let mask_res = msb_mask_bottom_limb(ab_base2k, res_effective_k);
         let mask_a = msb_mask_bottom_limb(ab_base2k, a_effective_k);
 
-        self.cnv_prepare_left(&mut res_prep, res.data(), mask_res, scratch_2);
+        self.cnv_prepare_left(&mut res_prep, res_in.data(), mask_res, scratch_2);
         self.cnv_prepare_right(&mut a_prep, a.data(), mask_a, scratch_2);
 
         let (cnv_offset_hi, cnv_offset_lo) = if cnv_offset < ab_base2k {
@@ -292,7 +294,7 @@ where
             ((cnv_offset / ab_base2k).saturating_sub(1), (cnv_offset % ab_base2k) as i64)
         };
 
-        let res_dft_size = a.size() + res.size() - cnv_offset_hi;
+        let res_dft_size = a.size() + res_in.size() - cnv_offset_hi;
 
         for i in 0..cols {
             let (mut res_dft, scratch_3) = scratch_2.take_vec_znx_dft(self, 1, res_dft_size);
@@ -301,6 +303,22 @@ where
             self.vec_znx_big_normalize(res.data_mut(), ab_base2k, cnv_offset_lo, i, &res_big, ab_base2k, 0, scratch_3);
         }
     }
+}
+
+/// Read-only view of `a` restricted to the `k.div_ceil(base2k)` limbs that hold its `k` bits of precision.
+///
+/// An operand may own more limbs than its precision needs (after a rescale, or when it was produced into a larger
+/// destination); the convolution-based products below only consume the meaningful ones.
+fn glwe_effective_view<'a, A: DataRef>(a: &'a GLWE<A>, k: usize) -> GLWE<&'a [u8]> {
+    let size: usize = k.div_ceil(a.base2k().as_usize());
+    assert!(
+        size <= a.size(),
+        "effective precision k={k} needs {size} limbs but the operand holds {}",
+        a.size()
+    );
+    let mut view: GLWE<&[u8]> = a.to_ref();
+    view.data.size = size;
+    view
 }
 
 #[doc(hidden)]
@@ -623,6 +641,7 @@ where
         R: DataMut,
         A: DataRef,
     {
+        let a: &GLWE<&[u8]> = &glwe_effective_view(a, a_effective_k);
         assert!(
             scratch.available() >= self.glwe_tensor_square_apply_tmp_bytes(res, a),
             "scratch.available(): {} < GLWETensoring::glwe_tensor_square_apply_tmp_bytes: {}",
@@ -631,8 +650,6 @@ where
         );
 
         let a_base2k: usize = a.base2k().as_usize();
-
-        assert_eq!(a_effective_k.div_ceil(a_base2k), a.size());
 
         let res_base2k: usize = res.base2k().as_usize();
         let cols: usize = res.rank().as_usize() + 1;
@@ -713,6 +730,8 @@ where
         A: DataRef,
         B: DataRef,
     {
+        let a: &GLWE<&[u8]> = &glwe_effective_view(a, a_effective_k);
+        let b: &GLWE<&[u8]> = &glwe_effective_view(b, b_effective_k);
         assert!(
             scratch.available() >= self.glwe_tensor_apply_tmp_bytes(res, a, b),
             "scratch.available(): {} < GLWETensoring::glwe_tensor_apply_tmp_bytes: {}",
@@ -722,8 +741,6 @@ where
 
         let ab_base2k: usize = a.base2k().as_usize();
         assert_eq!(b.base2k().as_usize(), ab_base2k);
-        assert_eq!(a_effective_k.div_ceil(ab_base2k), a.size());
-        assert_eq!(b_effective_k.div_ceil(ab_base2k), b.size());
 
         let res_base2k: usize = res.base2k().as_usize();
 
@@ -834,6 +851,8 @@ where
         A: DataRef,
         B: DataRef,
     {
+        let a: &GLWE<&[u8]> = &glwe_effective_view(a, a_effective_k);
+        let b: &GLWE<&[u8]> = &glwe_effective_view(b, b_effective_k);
         assert!(
             scratch.available() >= self.glwe_tensor_apply_tmp_bytes(res, a, b),
             "scratch.available(): {} < GLWETensoring::glwe_tensor_apply_tmp_bytes: {}",
@@ -843,8 +862,6 @@ where
 
         let ab_base2k: usize = a.base2k().as_usize();
         assert_eq!(b.base2k().as_usize(), ab_base2k);
-        assert_eq!(a_effective_k.div_ceil(ab_base2k), a.size());
-        assert_eq!(b_effective_k.div_ceil(ab_base2k), b.size());
 
         let res_base2k: usize = res.base2k().as_usize();
         let cols: usize = res.rank().as_usize() + 1;
